@@ -104,6 +104,27 @@ def enumerate_cases(tier):
                                    ["raw", q3, hi], ["raw", q1, q3]], "cache_b": cache_b}
     # windows far from the time origin with a fine tolerance (|t| * 1e-9 spans many resolved times): clusters of short
     # intervals, a few resolved steps each, asked in opposite orders
+    # a node of the dyadic tree, then intervals whose end points lie a fraction of the tolerance away from that node's
+    # (0.3 ... 1.4 tol: on the same resolved time or on the neighbouring one), against an object that never saw the node
+    for tol in sorted(set(history.TOLS)):
+        for wrapper in ("interval", "tree"):
+            idx += 1
+            rnd = random.Random(seed * 5003 + idx)
+            lo, hi = rnd.choice([(0.25, 0.5), (0.5, 0.75), (0.0, 0.5), (0.5, 1.0)])
+            near = []
+            for fa, fb in ((0.6, 0.0), (0.0, 0.7), (-0.8, 0.0), (0.0, -0.6), (0.9, 0.9), (0.3, 0.0), (1.4, 0.0), (0.0, -1.3)):
+                a_, b_ = max(0.0, lo + fa * tol), min(1.0, hi + fb * tol)
+                if a_ < b_:
+                    near.append(["raw", a_, b_])
+            cfg = {"wrapper": wrapper, "t0": 0.0, "t1": 1.0, "shape": [16], "levy": "none", "entropy": rnd.randrange(2 ** 31),
+                   "dtype": "float64", "cache_size": 45, "dt": None, "tol": tol, "halfway": True, "user_W": False,
+                   "user_H": False, "grid": 100}
+            ops_a = []
+            for q_ in near:
+                ops_a += [["raw", lo, hi], q_]
+            if wrapper == "interval":
+                ops_a += [["pt", 50], ["raw", 0.0, min(1.0, 0.5 + 0.7 * tol)]]
+            yield {"kind": "dyadic", "cfg": cfg, "ops_a": ops_a, "ops_b": [], "targets": near + [["raw", lo, hi]], "cache_b": 45}
     for t0 in (50000.0, -200000.0, 1000.0, 0.0):
         for levy in ("none", "space-time"):
             for tol in (1e-6,):
